@@ -39,6 +39,12 @@ RULE = ('three kinds of cases, all drawn from ctx.rng.  (1) chidx: a geometry (f
         'any valid spike, peak channels at probe ends; chunk size 500..10000 (ns up to ~4 chunks, also ns < cs, ns = k*cs, ns = k*cs+1), '
         'n_jobs 1..8, seeds, window (trough_offset, spike_length_samples) = 42/128 (half the cases), 30/64, 42/96, 10/128, 0/16, 64/64, 20/200 or random; the RNG choice is read back from the saved table and given to the model; every file '
         '(table, traces, channel map, templates), the loader aggregate and load_waveforms(labels, indices) are compared exactly.  '
+        'State carried between calls (the model is a pure function of its arguments): in every chidx / extract case and every third bin case the real '
+        'function is called again with the SAME argument objects after another library call on other data (make_channel_index x3; extract_wfs_array x3; '
+        'extract_wfs_cbin twice into two output directories; one WaveformsLoader serving load(key), load(), load(key); files re-read afterwards).  The FIRST '
+        'result is what is compared with the model of the original values; a later result that differs from it is appended to the implementation answer (a '
+        'disagreement) and the oracle returns it as a concrete call sequence with its wrong result.  An argument array changed in place is only recorded as '
+        'a tag / note (no demand), results aliasing internal buffers are not examined.  '
         'A case is non-trivial when it produces >= 1 waveform (bin), succeeds with >= 1 spike (extract), or has >= 2 sites (chidx); '
         'distinct by the full input')
 ASSUMPTIONS = [
@@ -48,6 +54,7 @@ ASSUMPTIONS = [
     'template row i is compared with the model of the code (i-th cluster that has waveforms); "row i = unit i" is proved and demanded by the oracle only when no unit without valid spikes precedes a unit with valid spikes (known finding templates-skip-empty-unit)',
     'a spike train without any valid spike makes extract_wfs_cbin raise IndexError; the model has the same error branch, the oracle skips such inputs (reported, see known finding no-valid-spike)',
     'recording values are integers below 2^23 so float32 and the float32 mean inside nanmedian are exact; templates are compared as 2*median',
+    'repeating a call with the same argument objects (same loader object) must give the same result as the first call; whether arguments are modified in place or results alias caches is NOT demanded, only its consequence on later results (the unchanged code modifies no argument)',
     'chunk sizes >= trough_offset (the property says 500..10000); peak channels within the probe; max_wf >= 1',
     'cases with more than 240 waveform rows x neighbours travel as a 61-bit order-sensitive polynomial digest of every traces / templates row (computed from the full arrays on both sides) instead of the full text; smaller cases compare every value',
 ]
@@ -228,13 +235,43 @@ def err_name(e):
 # ---------------------------------------------------------------------------------------------
 # (1) make_channel_index
 # ---------------------------------------------------------------------------------------------
-def impl_chidx(x, y, radius, pad):
+def _same(a, b):
+    a, b = np.asarray(a), np.asarray(b)
+    return a.shape == b.shape and a.dtype == b.dtype and bool(np.array_equal(a, b, equal_nan=(a.dtype.kind == 'f')))
+
+
+def chidx_calls(x, y, radius, pad):
+    """make_channel_index called repeatedly on the SAME geom object, another geometry in between:
+    (result of the first call | exception, message when a later call returns something else | None, argument modified?).
+    The first result is what is compared with the model of the ORIGINAL coordinates; a modified argument is only recorded."""
     from ibldsp.utils import make_channel_index
+    geom = np.c_[x, y].astype(float)
+    g0 = geom.copy()
     try:
-        ci = make_channel_index(np.c_[x, y].astype(float), radius=radius, pad_val=pad)
+        r1 = make_channel_index(geom, radius=radius, pad_val=pad)
     except Exception as e:
-        return err_name(e)
-    return 'ok ' + (';'.join(_L(r) for r in ci) or '-')
+        return e, None, not _same(geom, g0)
+    first = r1.copy()
+    if len(x) > 1:
+        make_channel_index(np.c_[y[::-1], x[::-1]].astype(float) * 2 + 1, radius=radius + 3)
+    try:
+        r = make_channel_index(geom, radius=radius, pad_val=pad)
+    except Exception as e:
+        return first, (f'call sequence g = geom; make_channel_index(g, radius={radius}); make_channel_index(other geometry); make_channel_index(g, radius={radius}) '
+                       f'raised {type(e).__name__}: {e}'), not _same(geom, g0)
+    msg = None
+    if not _same(r, first):
+        msg = (f'call sequence g = geom; make_channel_index(g, radius={radius}, pad_val={pad}); make_channel_index(other geometry); '
+               f'make_channel_index(g, radius={radius}, pad_val={pad}) on the same object returned {r.tolist()[:2]}..., the neighbour table of the '
+               f'original coordinates is {first.tolist()[:2]}...')
+    return first, msg, not _same(geom, g0)
+
+
+def impl_chidx(x, y, radius, pad):
+    ci, msg, _ = chidx_calls(x, y, radius, pad)
+    if isinstance(ci, Exception):
+        return err_name(ci)
+    return 'ok ' + (';'.join(_L(r) for r in ci) or '-') + ('' if msg is None else ' !second-call: ' + msg)
 
 
 def oracle_chidx(spec, radius):
@@ -243,10 +280,11 @@ def oracle_chidx(spec, radius):
     n = len(x)
     nb = brute_neighbours(x, y, radius)
     w = max(len(r) for r in nb)
-    try:
-        ci = make_channel_index(np.c_[x, y].astype(float), radius=radius)
-    except Exception as e:
-        return f'make_channel_index raised {type(e).__name__}: {e}'
+    ci, msg, _ = chidx_calls(x, y, radius, None)
+    if isinstance(ci, Exception):
+        return f'make_channel_index raised {type(ci).__name__}: {ci}'
+    if msg:
+        return msg
     exp = np.array([r + [n] * (w - len(r)) for r in nb], int).reshape(n, w)
     if ci.shape != exp.shape:
         return f'channel index has shape {ci.shape}, expected {exp.shape}'
@@ -259,26 +297,59 @@ def oracle_chidx(spec, radius):
 # ---------------------------------------------------------------------------------------------
 # (2) extract_wfs_array
 # ---------------------------------------------------------------------------------------------
-def impl_extract(case):
+def extract_calls(arr, samples, peaks, cn, off, ln, add_nan):
+    """extract_wfs_array called twice on the SAME arr / df / channel_neighbors objects, another extraction in between:
+    (wfs of the first call | exception, message when the second call returns something else | None).  The first result is
+    what is compared with the model of the ORIGINAL values."""
     import pandas as pd
-    from ibldsp.utils import make_channel_index
     from ibldsp.waveform_extraction import extract_wfs_array
+    df = pd.DataFrame({'sample': np.array(samples, dtype=np.int64), 'peak_channel': np.array(peaks, dtype=np.int64)})
+    a0, c0, d0 = arr.copy(), cn.copy(), df.copy(deep=True)
+    kw = dict(trough_offset=off, spike_length_samples=ln, add_nan_trace=bool(add_nan))
+    try:
+        wfs, cind, off_r = extract_wfs_array(arr, df, cn, **kw)
+    except Exception as e:
+        return e, None
+    first = np.array(wfs, copy=True)
+    if off_r != off:
+        return first, f'returned trough offset {off_r} != {off}'
+    if len(samples):
+        try:
+            extract_wfs_array(a0[::-1].copy() + 1, d0.copy(deep=True), c0.copy(), **kw)
+        except Exception:
+            pass
+    seq = ('call sequence extract_wfs_array(arr, df, cn, ...); extract_wfs_array(other array, ...); extract_wfs_array(arr, df, cn, ...) '
+           'with the same objects: the last call ')
+    try:
+        wfs2 = extract_wfs_array(arr, df, cn, **kw)[0]
+    except Exception as e:
+        return first, seq + f'raised {type(e).__name__}: {e}'
+    if not _same(wfs2, first):
+        bad = np.argwhere(~((wfs2 == first) | (np.isnan(wfs2) & np.isnan(first))))[0] if wfs2.shape == first.shape else None
+        return first, seq + (f'returned shape {wfs2.shape} instead of {first.shape}' if bad is None else
+                             f'returned wfs{bad.tolist()} = {wfs2[tuple(bad)]}, the source window of the original df gives {first[tuple(bad)]}')
+    return first, None
+
+
+def _extract_args(case):
+    from ibldsp.utils import make_channel_index
     x, y = geom_xy(case['geom'])
     nd, ns, K = len(x), case['ns'], case['K']
     arr = formula(ns, K, nd)
     if case['has_nan']:
         arr = np.vstack([arr, np.full((1, ns), np.nan)])
-    arr = arr.astype(case['dtype'])
+    arr = arr.astype(case.get('dtype', 'float64'))
     cn = make_channel_index(np.c_[x, y].astype(float), radius=case['radius'])
-    df = pd.DataFrame({'sample': np.array(case['samples'], dtype=np.int64), 'peak_channel': np.array(case['peaks'], dtype=np.int64)})
-    try:
-        wfs, cind, off = extract_wfs_array(arr, df, cn, trough_offset=case['off'], spike_length_samples=case['len'],
-                                           add_nan_trace=bool(case['add_nan']))
-    except Exception as e:
-        return err_name(e)
-    if off != case['off']:
-        return f'returned offset {off}'
-    return 'ok ' + show_wfs(wfs)
+    return arr, cn
+
+
+def impl_extract(case):
+    arr, cn = _extract_args(case)
+    wfs, msg = extract_calls(arr, case['samples'], case['peaks'], cn, case['off'], case['len'], case['add_nan'])
+    tail = '' if msg is None else ' !second-call: ' + msg
+    if isinstance(wfs, Exception):
+        return err_name(wfs) + tail
+    return 'ok ' + show_wfs(wfs) + tail
 
 
 def line_extract(case):
@@ -332,17 +403,17 @@ def oracle_extract(case):
     if any(not (off <= s and s + (ln - off) < ns) for s in case['samples']) or any(not (0 <= p < nc) for p in case['peaks']):
         return None
     src = formula(ns, case['K'], nc)
-    arr = src
+    arr = src.copy()
     if case['has_nan']:
         arr = np.vstack([arr, np.full((1, ns), np.nan)])
     if case['has_nan'] and case['add_nan']:
         return None
     cn = make_channel_index(np.c_[x, y].astype(float), radius=case['radius'])
-    df = pd.DataFrame({'sample': np.array(case['samples'], dtype=np.int64), 'peak_channel': np.array(case['peaks'], dtype=np.int64)})
-    try:
-        wfs = extract_wfs_array(arr, df, cn, trough_offset=off, spike_length_samples=ln, add_nan_trace=bool(case['add_nan']))[0]
-    except Exception as e:
-        return f'extract_wfs_array raised {type(e).__name__}: {e}'
+    wfs, msg = extract_calls(arr, case['samples'], case['peaks'], cn, off, ln, case['add_nan'])
+    if isinstance(wfs, Exception):
+        return f'extract_wfs_array raised {type(wfs).__name__}: {wfs}'
+    if msg:
+        return msg
     nb = brute_neighbours(x, y, case['radius'])
     w = max(len(r) for r in nb)
     for i, (s, p) in enumerate(zip(case['samples'], case['peaks'])):
@@ -367,58 +438,126 @@ def wf_defaults():
 
 
 class BinRun:
-    """one call of the real extract_wfs_cbin on a scratch directory; keeps what the check observes"""
+    """extract_wfs_cbin (and WaveformsLoader) on a scratch directory.  With deep=True the call sequence
+    extract_wfs_cbin(args -> out); make_channel_index(other geometry); extract_wfs_cbin(the SAME argument objects -> out2)
+    must give the same files in out2 as in out (which are the ones compared with the model of the ORIGINAL arguments), and on
+    ONE loader object  load_waveforms(key); load_waveforms(); load_waveforms(key)  must return the same rows twice and leave
+    the saved files as they were.  `self.impure` describes the first such wrong RESULT (None when there is none);
+    `self.arg_modified` only records (tag) that an argument array / dict was changed in place."""
 
-    def __init__(self, inp, loader=True):
+    FILES = ('index', 'sample', 'cluster', 'peak_channel', 'waveform_index', 'index_within_clusters')
+
+    def _read(self, out):
         import pandas as pd
+        tb = pd.read_parquet(out / 'waveforms.table.pqt')
+        return (np.load(out / 'waveforms.traces.npy'), np.load(out / 'waveforms.templates.npy'),
+                np.load(out / 'waveforms.channels.npz')['channels'], {k: tb[k].to_numpy() for k in self.FILES})
+
+    def __init__(self, inp, loader=True, deep=False):
         from ibldsp import waveform_extraction as we
+        from ibldsp.utils import make_channel_index
         x, y = geom_xy(inp['geom'])
         nc, ns = len(x), inp['ns']
         K = nc + 1
         self.err = None
+        self.impure = None
+        self.arg_modified = None
         d = Path(tempfile.mkdtemp(prefix='c13_'))
         try:
             t = np.arange(ns, dtype=np.int64)[:, None]
             c = np.arange(K, dtype=np.int64)[None, :]
             ((t * K + c) % MOD).astype(np.float32).tofile(d / 'rec.bin')
-            out = d / 'out'
-            out.mkdir()
             kw = {}
             if 'off' in inp:
                 kw['trough_offset'] = inp['off']
             if 'len' in inp:
                 kw['spike_length_samples'] = inp['len']
+            args = {'samples': np.array(inp['samples'], dtype=np.int64), 'clusters': np.array(inp['clusters'], dtype=np.int64),
+                    'chans': np.array(inp['chans'], dtype=np.int64), 'x': x, 'y': y}
+            h = {'x': args['x'], 'y': args['y']}
+            rk = {'ns': ns, 'nc': K, 'nsync': 1, 'dtype': 'float32', 'fs': 30000}
+            snap = {k: v.copy() for k, v in args.items()}
+            rk0 = dict(rk)
+
+            def call(out):
+                out.mkdir()
+                we.extract_wfs_cbin(d / 'rec.bin', out, args['samples'], args['clusters'], args['chans'], h=h, reader_kwargs=rk,
+                                    max_wf=inp['max_wf'], chunksize_samples=inp['cs'], n_jobs=inp['n_jobs'], preprocess_steps=[],
+                                    seed=inp['seed'], **kw)
+
+            def untouched(when):
+                for k in snap:
+                    if not _same(args[k], snap[k]):
+                        return f'{when}: the argument array {k} ({"spike_" + k if k in ("samples", "clusters", "chans") else "h[" + repr(k) + "]"}) was modified in place'
+                if list(h) != ['x', 'y'] or h['x'] is not args['x'] or h['y'] is not args['y'] or rk != rk0:
+                    return f'{when}: the h / reader_kwargs dict argument was modified'
+                return None
             with warnings.catch_warnings():
                 warnings.simplefilter('ignore')
                 try:
-                    we.extract_wfs_cbin(d / 'rec.bin', out, np.array(inp['samples'], dtype=np.int64), np.array(inp['clusters'], dtype=np.int64),
-                                        np.array(inp['chans'], dtype=np.int64), h={'x': x, 'y': y},
-                                        reader_kwargs={'ns': ns, 'nc': K, 'nsync': 1, 'dtype': 'float32', 'fs': 30000}, max_wf=inp['max_wf'],
-                                        chunksize_samples=inp['cs'], n_jobs=inp['n_jobs'], preprocess_steps=[], seed=inp['seed'], **kw)
-                    self.traces = np.load(out / 'waveforms.traces.npy')
-                    self.templates = np.load(out / 'waveforms.templates.npy')
-                    self.chans = np.load(out / 'waveforms.channels.npz')['channels']
-                    tb = pd.read_parquet(out / 'waveforms.table.pqt')
-                    self.table = {k: tb[k].to_numpy() for k in ('index', 'sample', 'cluster', 'peak_channel', 'waveform_index', 'index_within_clusters')}
-                    self.n = len(tb)
+                    call(d / 'out')
+                    self.arg_modified = untouched('after extract_wfs_cbin')
+                    self.traces, self.templates, self.chans, self.table = self._read(d / 'out')
+                    self.n = len(self.table['index'])
+                    if deep:
+                        if len(x) > 1:
+                            make_channel_index(np.c_[y[::-1], x[::-1]].astype(float) * 2 + 1)
+                        seq = ('call sequence extract_wfs_cbin(bin, out, samples, clusters, channels, h, ...); make_channel_index(other geometry); '
+                               'extract_wfs_cbin(bin, out2, the same argument objects, same seed): ')
+                        try:
+                            call(d / 'out2')
+                            tr2, tp2, ch2, tb2 = self._read(d / 'out2')
+                            diff = [nm for nm, a_, b_ in (('traces', tr2, self.traces), ('templates', tp2, self.templates), ('channels', ch2, self.chans))
+                                    if not _same(a_, b_)] + ['table.' + k for k in self.FILES if not _same(tb2[k], self.table[k])]
+                            if diff:
+                                eg = ''
+                                if tr2.shape == self.traces.shape and 'traces' in diff:
+                                    bd = tuple(np.argwhere(~((tr2 == self.traces) | (np.isnan(tr2) & np.isnan(self.traces))))[0])
+                                    eg = f'traces{list(map(int, bd))} = {tr2[bd]} in out2, {self.traces[bd]} in out (= the source); '
+                                elif ch2.shape == self.chans.shape and 'channels' in diff:
+                                    eg = f'channel map rows {ch2[:1].tolist()} in out2, {self.chans[:1].tolist()} in out; '
+                                self.impure = seq + (f'{", ".join(diff)} in out2 differ from out: {eg}table samples {tb2["sample"].tolist()[:6]} vs '
+                                                     f'{self.table["sample"].tolist()[:6]}, clusters {tb2["cluster"].tolist()[:6]} vs {self.table["cluster"].tolist()[:6]}, '
+                                                     f'templates shape {tp2.shape} vs {self.templates.shape}')
+                        except Exception as e:
+                            self.impure = seq + f'the second call raised {type(e).__name__}: {e}'
+                        self.arg_modified = self.arg_modified or untouched('after the second extract_wfs_cbin')
                     if loader:
-                        wfl = we.WaveformsLoader(out)
+                        wfl = we.WaveformsLoader(d / 'out')
                         dc = wfl.df_clusters
                         self.agg = [(int(c_), int(r.count), int(r.first_index), int(r.last_index)) for c_, r in zip(dc.index, dc.itertuples())]
                         self.loads = {}
-                        for key in inp.get('loads', []):
+
+                        def load(key):
                             labels, indices = key
-                            wfs, info, chn = wfl.load_waveforms(labels=None if labels is None else list(labels),
-                                                                indices=None if indices is None else list(indices))
+                            la = None if labels is None else list(labels)
+                            ix = None if indices is None else list(indices)
+                            return wfl.load_waveforms(labels=la, indices=ix)
+                        for key in inp.get('loads', []):
+                            wfs, info, chn = load(key)
                             pos = [int(v) for v in info.index]
                             same = (np.array_equal(np.asarray(wfs), self.traces[pos], equal_nan=True)
                                     and np.array_equal(np.asarray(chn), self.chans[pos].astype(int))
-                                    and all(np.array_equal(info[k].to_numpy(), self.table[k][pos])
-                                            for k in ('sample', 'cluster', 'peak_channel', 'waveform_index', 'index_within_clusters')))
+                                    and all(np.array_equal(info[k].to_numpy(), self.table[k][pos]) for k in self.FILES[1:]))
                             self.loads[key] = (pos, bool(same))
+                            if deep:
+                                keep = (np.array(wfs, copy=True), info.copy(deep=True), np.array(chn, copy=True))
+                                load((None, None))
+                                w2, i2, c2 = load(key)
+                                if not (_same(w2, keep[0]) and _same(c2, keep[2]) and list(i2.index) == list(keep[1].index)
+                                        and all(_same(i2[k].to_numpy(), keep[1][k].to_numpy()) for k in keep[1].columns)):
+                                    self.impure = self.impure or (f'on one WaveformsLoader object: load_waveforms(labels={key[0]}, indices={key[1]}); load_waveforms(); '
+                                                                  f'load_waveforms(labels={key[0]}, indices={key[1]}) returned rows {[int(v) for v in i2.index]} / other '
+                                                                  f'contents than the first call (rows {pos})')
                         del wfl
+                        if deep:
+                            tr3, tp3, ch3, tb3 = self._read(d / 'out')
+                            if not (_same(tr3, self.traces) and _same(tp3, self.templates) and _same(ch3, self.chans)
+                                    and all(_same(tb3[k], self.table[k]) for k in self.FILES)):
+                                self.impure = self.impure or 'call sequence extract_wfs_cbin(...); WaveformsLoader(out).load_waveforms(...) x3; re-reading the files in out: they differ from what extract_wfs_cbin wrote'
                 except Exception as e:
                     self.err = e
+                    self.arg_modified = self.arg_modified or untouched('after extract_wfs_cbin raised')
         finally:
             shutil.rmtree(d, ignore_errors=True)
 
@@ -467,8 +606,9 @@ def line_bin(inp, choice, sched, load_key, mode, off, ln):
 
 
 def canon_bin(inp, run, load_key, mode):
+    tail = '' if run.impure is None else ' !second-call: ' + run.impure
     if run.err is not None:
-        return err_name(run.err) + ' lawful=1'
+        return err_name(run.err) + ' lawful=1' + tail
     t = run.table
     rows = ';'.join(f'{a},{b},{c},{d},{e},{f}' for a, b, c, d, e, f in zip(
         t['index'], t['sample'], t['cluster'], t['peak_channel'], t['waveform_index'], t['index_within_clusters'])) or '-'
@@ -476,7 +616,7 @@ def canon_bin(inp, run, load_key, mode):
     pos, same = run.loads[load_key]
     return (f"ok lawful=1 units={_L(sorted(set(inp['clusters'])))} table={rows} chans={';'.join(_L(r) for r in run.chans) or '-'}"
             f" clusters={';'.join(','.join(map(str, a)) for a in run.agg) or '-'} traces={show(run.traces)}"
-            f" templates2={show(run.templates, 2)} load={_L(pos)}{'' if same else '!content'}")
+            f" templates2={show(run.templates, 2)} load={_L(pos)}{'' if same else '!content'}" + tail)
 
 
 WINDOWS = [(30, 64), (42, 96), (10, 128), (0, 16), (64, 64), (20, 200)]
@@ -636,7 +776,9 @@ def oracle_bin(inp, alt=None):
     inp = dict(inp)
     units = sorted(set(inp['clusters']))
     inp['loads'] = [(None, None)] + [((u,), (j,)) for u in units[:3] for j in (0, 1)] + [(tuple(units[:2]), (0, 2))]
-    run = BinRun(inp)
+    run = BinRun(inp, deep=True)
+    if run.impure:
+        return run.impure
     if run.err is not None:
         return f'extract_wfs_cbin / WaveformsLoader raised {type(run.err).__name__}: {run.err}'
     src = ((np.arange(ns, dtype=np.int64)[None, :] * K + np.arange(nc, dtype=np.int64)[:, None]) % MOD).astype(np.float32)
@@ -787,7 +929,8 @@ def correspondence(ctx):
     lines, impl, meta, runs = [], [], [], {}
     for inp in inputs + variants:
         load_key = inp['loads'][0]
-        run = BinRun(inp)
+        deep = (len(lines) % 3 == 0)
+        run = BinRun(inp, deep=deep)
         if 'base' in inp or any(inp is b for b in base):
             runs[id(inp)] = run
         choice = readback_choice(inp, run)
@@ -797,7 +940,9 @@ def correspondence(ctx):
         mode = 'full' if (run.err is None and run.n * nnb_bound <= 240) else 'digest'
         lines.append(line_bin(inp, choice, sched, load_key, mode, inp['off'], inp['len']))
         impl.append(canon_bin(inp, run, load_key, mode))
-        meta.append((_desc_bin(inp, load_key), run.err is None and run.n > 0, bin_tags(inp) + ('traces=' + mode,)))
+        meta.append((_desc_bin(inp, load_key), run.err is None and run.n > 0, bin_tags(inp) + ('traces=' + mode, 'call_twice+loader_reuse' if deep else 'single_call') + (('argument_modified_in_place',) if run.arg_modified else ())))
+        if run.arg_modified:
+            ctx.note('argument modified in place (recorded only): ' + run.arg_modified)
     for (desc, nt, tags), a, b in zip(meta, impl, ctx.lean(lines)):
         ctx.compare('bin', desc, a, b, nontrivial=nt, tags=('bin',) + tags)
     # chunk size / worker count independence, directly on the files (same seed => same choice)
@@ -907,6 +1052,11 @@ def search(ctx, reasons):
         inp = shrink_bin(inp, time.time() + (30 if ctx.quick else 120))
         r = run_oracle(inp) or r
     inp = {k: v for k, v in inp.items() if k not in ('loads', 'load', 'base')}
+    ran, fresh = fresh_oracle(inp)
+    if ran and fresh:
+        r = fresh                      # the message a replay in a new process gives (e.g. the call sequence that goes wrong)
+    elif ran:
+        r = ('(only after the earlier calls of this run; the same input passes in a fresh interpreter, i.e. state is carried between calls) ' + r)
     return {'input': inp, 'observed': r,
             'expected': ('C13: every saved waveform equals the source window [sample-offset, sample-offset+length) on the ascending within-200um '
                          'neighbourhood of its peak channel (NaN padded); table / traces / channel map / templates agree row by row; each unit gets '
@@ -914,11 +1064,36 @@ def search(ctx, reasons):
             'how': 'cd /verif && ./check C13 --replay <this file>   (harness/props/c13.py: run_oracle(input) on the real code; recording value(c,t) = (t*(nc+1)+c) mod 8388593)'}
 
 
-def replay(ctx, rep):
-    inp = rep['input']
+def _from_json(inp):
+    inp = dict(inp)
     inp['geom'] = tuple(inp['geom'])
-    if 'alt' in inp and inp['alt'] is not None:
+    if inp.get('alt') is not None:
         inp['alt'] = tuple(inp['alt'])
+    return inp
+
+
+def fresh_oracle(inp):
+    """the oracle in a NEW interpreter (no state left over from earlier cases of this run): what a replay will see"""
+    import json
+    import subprocess
+    import sys
+    code = ('import sys, json\n'
+            'sys.path[:0] = json.loads(sys.argv[1])\n'
+            'import props.c13 as m\n'
+            'print("RESULT" + json.dumps(m.run_oracle(m._from_json(json.loads(sys.stdin.read())))))\n')
+    try:
+        p = subprocess.run([sys.executable, '-c', code, json.dumps([q for q in sys.path if q])], input=json.dumps(inp, default=int),
+                           capture_output=True, text=True, timeout=300)
+        for line in p.stdout.splitlines():
+            if line.startswith('RESULT'):
+                return True, json.loads(line[6:])
+    except Exception:
+        pass
+    return False, None
+
+
+def replay(ctx, rep):
+    inp = _from_json(rep['input'])
     r = run_oracle(inp)
     print('oracle:', r)
     return r is not None
